@@ -483,6 +483,51 @@ def _friendly_lens(rng, n, need):
     return lens, tot
 
 
+def gen_api(rng):
+    n = rng.randint(4, 16)
+    cols = {"a": U.gen_cells(rng, n, p_nan=rng.choice([0.0, 0.2])), "b": U.gen_cells(rng, n, p_nan=0.3)}
+    kind = rng.choice(["rolling", "rolling", "trolling", "trolling", "shift", "diff", "ffill", "bfill", "map_overlap", "cum"])
+    inp = {"cols": cols, "kind": kind, "column": rng.choice([None, "a", "b"])}
+    if kind == "rolling":
+        w = rng.randint(1, 5)
+        inp["params"] = {"window": w, "min_periods": rng.choice([None, 1, w]), "center": rng.random() < 0.3,
+                         "how": rng.choice(["mean", "std", "var", "min", "median", "sum", "count", "max"])}
+        inp["lens"] = _friendly_lens(rng, 0, w)[0] if rng.random() < 0.8 else U.gen_lens(rng, n, 3)
+    elif kind == "trolling":
+        gaps = [rng.choice([1, 1, 2, 3, 7]) for _ in range(n)]
+        t = list(itertools.accumulate(gaps))
+        inp["tindex"] = t
+        inp["params"] = {"window": rng.choice(["2s", "3s", "5s", "10s", "40s"]), "min_periods": rng.choice([None, 1, 2]),
+                         "how": rng.choice(["sum", "mean", "count", "max"])}
+        inp["lens"] = U.gen_lens(rng, n, 4, allow_empty=False)
+    elif kind in ("shift", "diff"):
+        per = rng.choice([1, 2, -1, -2, 3])
+        inp["params"] = {"periods": per}
+        inp["lens"] = _friendly_lens(rng, 0, abs(per))[0]
+    elif kind in ("ffill", "bfill"):
+        lim = rng.choice([None, 1, 2])
+        inp["params"] = {"limit": lim}
+        inp["lens"] = _friendly_lens(rng, 0, lim or 1)[0]
+    elif kind == "map_overlap":
+        w = rng.randint(2, 4)
+        inp["params"] = {"window": w, "before": w - 1 + rng.choice([0, 0, 1]), "after": rng.choice([0, 0, 1])}
+        inp["lens"] = _friendly_lens(rng, 0, w)[0]
+    else:
+        inp["params"] = {"how": rng.choice(["cumsum", "cummax", "cummin", "cumprod"])}
+        inp["lens"] = U.gen_lens(rng, n, 4, allow_empty=False)
+        inp["cols"] = {k: [None if c is None else max(-2, min(2, c)) for c in v] for k, v in cols.items()}
+    m = sum(inp["lens"])
+    inp["cols"] = {k: (v * (m // max(len(v), 1) + 1))[:m] for k, v in inp["cols"].items()}
+    if inp.get("tindex"):
+        t = inp["tindex"]
+        while len(t) < m:
+            t = t + [t[-1] + 1 + i for i in range(m)]
+        inp["tindex"] = t[:m]
+    if m == 0:
+        return None
+    return inp
+
+
 def generate(ctx):
     rng = ctx.rng
     # --- function level: TakeLast, aggregates (exhaustive small spaces) -------------------------
@@ -561,48 +606,9 @@ def generate(ctx):
         yield "overlap", {"cells": cells, "lens": lens, "fn": fn}
     # --- API level -------------------------------------------------------------------------------
     for _ in range(ctx.n(70, 1200)):
-        n = rng.randint(4, 16)
-        cols = {"a": U.gen_cells(rng, n, p_nan=rng.choice([0.0, 0.2])), "b": U.gen_cells(rng, n, p_nan=0.3)}
-        kind = rng.choice(["rolling", "rolling", "trolling", "trolling", "shift", "diff", "ffill", "bfill", "map_overlap", "cum"])
-        inp = {"cols": cols, "kind": kind, "column": rng.choice([None, "a", "b"])}
-        if kind == "rolling":
-            w = rng.randint(1, 5)
-            inp["params"] = {"window": w, "min_periods": rng.choice([None, 1, w]), "center": rng.random() < 0.3,
-                             "how": rng.choice(["mean", "std", "var", "min", "median", "sum", "count", "max"])}
-            inp["lens"] = _friendly_lens(rng, 0, w)[0] if rng.random() < 0.8 else U.gen_lens(rng, n, 3)
-        elif kind == "trolling":
-            gaps = [rng.choice([1, 1, 2, 3, 7]) for _ in range(n)]
-            t = list(itertools.accumulate(gaps))
-            inp["tindex"] = t
-            inp["params"] = {"window": rng.choice(["2s", "3s", "5s", "10s", "40s"]), "min_periods": rng.choice([None, 1, 2]),
-                             "how": rng.choice(["sum", "mean", "count", "max"])}
-            inp["lens"] = U.gen_lens(rng, n, 4, allow_empty=False)
-        elif kind in ("shift", "diff"):
-            per = rng.choice([1, 2, -1, -2, 3])
-            inp["params"] = {"periods": per}
-            inp["lens"] = _friendly_lens(rng, 0, abs(per))[0]
-        elif kind in ("ffill", "bfill"):
-            lim = rng.choice([None, 1, 2])
-            inp["params"] = {"limit": lim}
-            inp["lens"] = _friendly_lens(rng, 0, lim or 1)[0]
-        elif kind == "map_overlap":
-            w = rng.randint(2, 4)
-            inp["params"] = {"window": w, "before": w - 1 + rng.choice([0, 0, 1]), "after": rng.choice([0, 0, 1])}
-            inp["lens"] = _friendly_lens(rng, 0, w)[0]
-        else:
-            inp["params"] = {"how": rng.choice(["cumsum", "cummax", "cummin", "cumprod"])}
-            inp["lens"] = U.gen_lens(rng, n, 4, allow_empty=False)
-            inp["cols"] = {k: [None if c is None else max(-2, min(2, c)) for c in v] for k, v in cols.items()}
-        m = sum(inp["lens"])
-        inp["cols"] = {k: (v * (m // max(len(v), 1) + 1))[:m] for k, v in inp["cols"].items()}
-        if inp.get("tindex"):
-            t = inp["tindex"]
-            while len(t) < m:
-                t = t + [t[-1] + 1 + i for i in range(m)]
-            inp["tindex"] = t[:m]
-        if m == 0:
-            continue
-        yield "api", inp
+        inp = gen_api(rng)
+        if inp is not None:
+            yield "api", inp
 
 
 def search(ctx):
